@@ -257,7 +257,7 @@ func cmdC17(args []string) {
 	start := time.Now()
 	procs, checks := 16, 6000
 	if o.Tier == "thorough" {
-		procs, checks = 64, 32000
+		procs, checks = 64, 120000
 	}
 	sim := newRapidSim("C17", "graphsim", "TestGraphSim")
 	rep := newReporter("C17")
@@ -296,7 +296,7 @@ func cmdC15(args []string) {
 	start := time.Now()
 	procs, checks := 16, 20000
 	if o.Tier == "thorough" {
-		procs, checks = 64, 80000
+		procs, checks = 64, 300000
 	}
 	sim := newRapidSim("C15", "conflictsim", "TestConflictSim")
 	rep := newReporter("C15")
